@@ -1,6 +1,7 @@
 package props
 
 import (
+	"github.com/pegnet/pegnetd/fat/fat2"
 	"fmt"
 	"os"
 	"sort"
@@ -32,6 +33,7 @@ type c09State struct {
 	ledger   string // hash
 	dump     canon.Dump
 	never    bool // reached without any restart
+	div      bool // the ledger already differs from the reference state of the same prefix (descendants only repeat that divergence)
 }
 
 func runC09(c *core.Ctx, r *core.Result) {
@@ -136,9 +138,12 @@ func c09Explore(c *core.Ctx, r *core.Result, period uint64, depth int) {
 						r.Eval()
 						key := ns.prefix + "|" + ns.ledger + "|" + ns.cache.String()
 						ref := byPrefix[ns.prefix]
+						ns.div = ref != nil && ref.ledger != ns.ledger
 						if ref == nil {
 							byPrefix[ns.prefix] = ns
 							ref = ns
+						} else if ref.ledger != ns.ledger && st.div {
+							r.Count("descendants-of-a-diverged-state", 1)
 						} else if ref.ledger != ns.ledger && !reported[ns.prefix] {
 							reported[ns.prefix] = true
 							uInWindow := strings.Contains(ns.prefix, "U")
@@ -146,10 +151,16 @@ func c09Explore(c *core.Ctx, r *core.Result, period uint64, depth int) {
 							if uInWindow {
 								cls = "ungraded-in-window"
 							}
+							// what differs: named by its cause when the two nodes priced with averaging windows of different
+							// length (the count-vs-height trimming), by the differing tables otherwise
+							what := strings.Join(canon.TablesDiffering(ref.dump, ns.dump), "+")
+							if len(ref.cache.data[fat2.PTickerUSD]) != len(ns.cache.data[fat2.PTickerUSD]) {
+								what = "averaging-windows-of-different-length"
+							}
 							vkey := fmt.Sprintf("%s/%s/[%s]vs[%s]", era.Name, ns.prefix, ref.restarts, ns.restarts)
 							if c.Want(vkey) || c.Only != "" {
 								r.Violate(core.Violation{Key: vkey,
-									Signature: fmt.Sprintf("C09:ledger-differs:%s:%s", cls, strings.Join(canon.TablesDiffering(ref.dump, ns.dump), "+")),
+									Signature: fmt.Sprintf("C09:ledger-differs:%s:%s", cls, what),
 									Desc:      fmt.Sprintf("chain %s (1/2 = graded with rates R1/R2, U = ungraded) gives different ledgers for event sequences [%s] and [%s] (R = restart)", ns.prefix, ref.restarts, ns.restarts),
 									Detail:    append(joinDiff(ref.dump, ns.dump), "cache A: "+ref.cache.String(), "cache B: "+ns.cache.String())})
 							}
